@@ -35,7 +35,9 @@ class World(object):
 def mw_class(cache, t):
     from clastic.middleware import Middleware
     if t not in cache:
-        cache[t] = type('Mw' + t, (Middleware,), {})
+        # B derives from A: two DIFFERENT unique types (a derived middleware class is not "the same type" as its base)
+        base = mw_class(cache, 'A') if t == 'B' else Middleware
+        cache[t] = type('Mw' + t, (base,), {})
     return cache[t]
 
 
@@ -109,6 +111,14 @@ def embed_elsewhere(app, W, cache):
     return other
 
 
+def app_routes_of(entry):
+    """the bound routes an entry contributes (a Route: one; a SubApplication: all routes of the embedded application)"""
+    from clastic import SubApplication
+    if isinstance(entry, SubApplication):
+        return entry.app.routes
+    return [entry]
+
+
 def build_nested(rec, W):
     from clastic import Application, Route, SubApplication
     cache = {}
@@ -138,9 +148,23 @@ def build_nested(rec, W):
                 keep.append(embed_elsewhere(app, W, cache))
             entries.insert(at, SubApplication(ptxt, app, rebind_render=a['rebind'], inherit_slashes=a['inherit']))
         app_mws = [make_mw(cache, W, t, '%d.0.%d' % (k, i)) for i, t in enumerate(a['mws'], 1)]
-        app = Application(entries, resources=dict((nm, ResObj(nm, k)) for nm in a['res']), middlewares=app_mws,
-                          render_factory=make_factory(k) if a['fact'] else None, error_handler=make_handler(k, 'ra' in a['res']),
-                          slash_mode=a['slash'])
+        kw = dict(resources=dict((nm, ResObj(nm, k)) for nm in a['res']), middlewares=app_mws,
+                  render_factory=make_factory(k) if a['fact'] else None, error_handler=make_handler(k, 'ra' in a['res']),
+                  slash_mode=a['slash'])
+        if (k + len(entries) + depth) % 2 == 0:
+            app = Application(entries, **kw)
+        else:
+            # the same table built by add() calls with explicit indices, in an order other than the final one
+            app = Application([], **kw)
+            order = list(range(len(entries)))
+            order = order[1::2] + order[0::2]
+            placed = []
+            for j in order:
+                idx = len([p_ for p_ in placed if p_ < j])
+                # position in app.routes = number of ROUTES (not entries) already placed before it
+                pos = sum(len(list(app_routes_of(entries[p_]))) for p_ in placed if p_ < j)
+                app.add(entries[j], index=pos)
+                placed.append(j)
         if k < depth and reuse[k] == 'after':
             keep.append(embed_elsewhere(inner_app, W, cache))
         inner_app = app
